@@ -367,6 +367,10 @@ RULE = ("in-process stack: {two sequential waits answered by two independent sen
         "event in the tick log and reflected in the result; DBOS lifecycle: the real DBOSIdleReleaseDecorator + SqliteRunLifecycleLock "
         "with two replicas on one lifecycle DB file, each response delivered through either replica, and a releaser that stops "
         "between begin_release and complete_release with the clock jumping beyond CRASH_TIMEOUT_SECONDS; non-trivial = >= 1 deviation")
+from vmc.tables import _ROUND7 as _R7  # noqa: E402
+
+RULE += _R7["C26"]
+
 
 
 def run(tier: str, seed: int) -> Any:
